@@ -306,7 +306,13 @@ def check(prop, tier, seed):
             widened = len(wl)
             for l in wl:
                 all_lines[("v3", re.match(r"id=(\S+)", l).group(1))] = l
-            for o in run_shards(wl, "v3", spec["props"], spec.get("view", "raw"), workdir):
+            wouts = run_shards(wl, "v3", spec["props"], spec.get("view", "raw"), workdir)
+            if spec.get("post"):
+                # cross-scenario judgements (twins) of the widened set, in verdict-line form
+                wl_ids = {re.match(r"id=(\S+)", l).group(1) for l in wl}
+                pf, _ = getattr(scenarios, spec["post"])([("v3", o) for o in wouts], {k_: v_ for k_, v_ in all_lines.items() if k_[1] in wl_ids})
+                wouts = wouts + [f"V {sid_} {prop} FAIL {d_}" for (_, sid_, d_) in pf]
+            for o in wouts:
                 if o.startswith("V ") and f" {prop} FAIL " in o:
                     parts = o.split(" ", 4)
                     site, reason = field(parts[4], "site"), field(parts[4], "reason")
